@@ -421,7 +421,7 @@ class Fn:
             place = op_or_place
         roots = []
         seen = set()
-        work = [(place[0], tuple(place[1]))]
+        work = [(place[0], tuple(place[1]), ())]
         defs = self.defs()
         n = 0
         is_closure = self.kind in ("closure", "coroutine")
@@ -430,29 +430,34 @@ class Fn:
             if n > max_nodes:
                 roots.append({"k": "other", "why": "slice budget"})
                 break
-            local, proj = work.pop()
+            item = work.pop()
+            local, proj = item[0], item[1]
+            trail = item[2] if len(item) > 2 else ()
+            self._trail = trail
             key = (local, proj)
             if key in seen:
                 continue
             seen.add(key)
+            nroots = len(roots)
+            nwork = len(work)
             if is_closure and local == 1:
                 # captured variable: (*_1).f:i or _1.f:i
                 pr = list(proj)
                 while pr and pr[0] == "*":
                     pr = pr[1:]
                 if pr and pr[0].startswith("f:"):
-                    roots.append({"k": "upvar", "field": int(pr[0].split(":")[1]), "proj": pr[1:]})
+                    roots.append({"k": "upvar", "field": int(pr[0].split(":")[1]), "proj": pr[1:], "trail": list(trail)})
                 else:
-                    roots.append({"k": "arg", "local": 1, "proj": list(proj)})
+                    roots.append({"k": "arg", "local": 1, "proj": list(proj), "trail": list(trail)})
                 continue
             dl = [x for x in defs.get(local, []) if x[1] in ("assign", "call", "resume")]
             partial = [x for x in defs.get(local, []) if x[1] in ("partial", "partial_call")]
             if 1 <= local <= self.arg_count and not dl:
-                roots.append({"k": "arg", "local": local, "proj": list(proj)})
+                roots.append({"k": "arg", "local": local, "proj": list(proj), "trail": list(trail)})
                 # an argument may still be partially overwritten; ignore
                 continue
             if not dl and not partial:
-                roots.append({"k": "undef", "local": local, "proj": list(proj)})
+                roots.append({"k": "undef", "local": local, "proj": list(proj), "trail": list(trail)})
                 continue
             # partial writes matching the projection prefix
             for site, kind, s in partial:
@@ -474,6 +479,14 @@ class Fn:
                     self._slice_call(c, proj, work, roots, through)
                 else:
                     roots.append({"k": "resume", "site": site})
+            for r in roots[nroots:]:
+                r.setdefault("trail", list(trail))
+            for i in range(nwork, len(work)):
+                w = work[i]
+                extra = w[2] if len(w) > 2 else ()
+                work[i] = (w[0], w[1], tuple(trail) + tuple(extra))
+        for r in roots:
+            r.setdefault("trail", [])
         return roots
 
     def _slice_call(self, c, proj, work, roots, through):
@@ -488,8 +501,8 @@ class Fn:
                 a = c.args[i]
                 p = op_place(a)
                 if p is not None:
-                    # wrapper results keep no field correspondence: drop the projection
-                    work.append((p[0], tuple(p[1])))
+                    # wrapper results keep no field correspondence: the projection moves to the trail
+                    work.append((p[0], tuple(p[1]), tuple(proj)))
                 else:
                     roots.append({"k": "const", "op": a})
 
